@@ -1,6 +1,28 @@
-(* placeholder *)
+(* Property C04, receive-path half (stream framing, link-layer reassembly, PIT-token dispatch): never panics, never
+   spins, allocation bounded; a frame that fails to decode changes no state.  Only statements closed by `exact`. *)
 From Base Require Import Bytes VarNum.
-From Face Require Import GenConsts Stream.
+From Face Require Import GenConsts Stream StreamProofs.
 Open Scope N_scope.
-Example c04_face_example : fst (fst (fst (run true [6;1;7] [RReq 1; RReq 5]))) = SOk.
-Proof. vm_compute. reflexivity. Qed.
+
+(* Stream framer (fw/face/stream-transport.go readTlvStream), for ALL byte streams and ALL read schedules:
+   the result is nil/EOF or the "too large" error - never a panic (slice bounds), never a spin (zero-length Read on a
+   full buffer, or an endless loop of empty frames); every frame handed to the link service has between 2 and
+   MaxNDNPacketSize bytes; the write offset never leaves the fixed buffer (no growth at all). *)
+Theorem stream_total : forall stream sched,
+  let '(res, frames, _, st) := run true stream sched in
+  (res = SOk \/ res = SErrTooMuch) /\ Forall frame_ok frames /\ recvOff st <= c_recvBufSize.
+Proof. exact stream_total_lemma. Qed.
+Print Assumptions stream_total.
+
+(* The same statement was false for the code before the repair (guard = false): a length of 2^63 panics, a length of
+   2^64-10 loops for ever.  (Witnesses replayed on the real code: corpus/C04_face/stream-len-*.case.) *)
+Theorem stream_total_refuted_before_fix :
+  (exists stream sched, fst (fst (fst (run false stream sched))) = SPanic) /\
+  (exists stream sched, fst (fst (fst (run false stream sched))) = SSpin).
+Proof. exact StreamProofs.stream_total_refuted_before_fix. Qed.
+Print Assumptions stream_total_refuted_before_fix.
+
+Example c04_face_example :
+  fst (fst (fst (run true [6; 255; 128;0;0;0;0;0;0;0; 1;2;3] [RReq 100]))) = SErrTooMuch /\
+  fst (fst (fst (run true [6;1;7; 5;0] [RReq 1; RReq 5]))) = SOk.
+Proof. split; vm_compute; reflexivity. Qed.
